@@ -116,9 +116,9 @@ package yubiattest
 //@     invariant correctTLen == (prefix1ok == 1 ? p1len(hash) + hsize(hash) : prefix2ok == 1 ? p2len(hash) + hsize(hash) : 0)
 //@     invariant entry(ok) == 0 || entry(ok) == 1
 //@     invariant entry(ok) == 1 ==> (emAt(k, mOf(pub, sig), 0) == 0 && emAt(k, mOf(pub, sig), 1) == 1 && (prefix1ok == 1 || prefix2ok == 1))
-//@     invariant entry(ok) == 1 ==> forall(j, 0 <= j && j < hsize(hash), emAt(k, mOf(pub, sig), k - hsize(hash) + j) == elems(hashed)[off(hashed) + j])
+//@     invariant entry(ok) == 1 ==> forall(j, 0 <= j && j < hsize(hash), emAt(k, mOf(pub, sig), k - hsize(hash) + j) == hashed[j])
 //@     invariant (emAt(k, mOf(pub, sig), 0) == 0 && emAt(k, mOf(pub, sig), 1) == 1 && (prefix1ok == 1 || prefix2ok == 1) &&
-//@       forall(j, 0 <= j && j < hsize(hash), emAt(k, mOf(pub, sig), k - hsize(hash) + j) == elems(hashed)[off(hashed) + j])) ==> entry(ok) == 1
+//@       forall(j, 0 <= j && j < hsize(hash), emAt(k, mOf(pub, sig), k - hsize(hash) + j) == hashed[j])) ==> entry(ok) == 1
 //@     invariant 2 <= i && i <= k - correctTLen - 1 && (ok == 0 || ok == 1)
 //@     invariant ok == 1 <==> (entry(ok) == 1 && forall(j, 2 <= j && j < i, emAt(k, mOf(pub, sig), j) == 255))
 
